@@ -196,8 +196,8 @@ def ow_case(ctx, rnd, elems, vid, pid, pins, corrupt=True):
             e3, fin3, err3 = parse(full)
             ctx.evals()
             ctx.count('mon.ow_corruptions')
-            if eok and parsed and parsed['elements'] is not None and any(e not in NAMES for e, _ in parsed['elements']):
-                continue   # CRC-valid image with an unknown element id: outside the statement
+            if eok and parsed and (parsed['elements'] is None or any(e not in NAMES for e, _ in parsed['elements'])):
+                continue   # CRC matched by coincidence over a ragged TLV area / unknown element id: outside the statement
             want = bool(hok and eok)
             if err3 is not None and not want:
                 continue   # an exception while parsing a corrupt image is a rejection
